@@ -5,7 +5,7 @@ import gridlib as gl
 
 def run(ctx):
     rnd = random.Random(ctx.seed + 1414)
-    n = 200 if ctx.quick else 4000
+    n = 200 if ctx.quick else 1200
     scens = [gl.history(rnd, "b%d" % i, steps=rnd.randint(5, 11), with_bad=True, with_construct=True, with_copy=(i % 3 == 0)) for i in range(n)]
     gl.run_grid(ctx, [("misuse", scens), ("mixed", gl.mixed_family(rnd, max(40, n // 5)))], gl.OBS_NODAL, "C14")
     ctx.assume("misuse calls are issued only in states the documented throws-clauses cover; raw-pointer overloads documented as unchecked are not misused")
